@@ -235,13 +235,16 @@ class ModelObserver(Observer):
         elif kind == "advance":
             for tk in st.ticks:
                 self.process_tick(tk)
+            end = st.t + float(op["dt"])
+            if self.last_tick_t is not None and end - self.last_tick_t >= self.P + EPS and not self.w.crashed:
+                self.mm("timer", "no expiry sweep between %r and %r although the period is %r" % (self.last_tick_t, end, self.P))
         elif kind in ("restart", "rephase"):
             for cid in list(self.sub_of):
                 self.unsubscribe(cid)
             if kind == "restart":
                 self.rebooted = st.t
             for tk in st.ticks:
-                self.process_tick(tk)
+                self.process_tick(tk, start=True)
         elif kind == "fill":
             self.h_fill(op, st)
         if st.after is not None and kind != "advance" and kind not in ("restart", "rephase"):
@@ -425,12 +428,18 @@ class ModelObserver(Observer):
             self.refuse(mb, np, S, t, st)
             return
         if mb.crowd or np.crowd:
-            # a first-two side coming back after a third was refused: unspecified (O1)
-            if err == "crowded":
-                self.note("O1_first_two_refused")
+            self.note("first_two_side_returns_after_refusal")
+            first_two_claimants = list(np.sides)[:2]
+            if err == "crowded" and S not in first_two_claimants and len(np.sides) >= 2:
+                # one of the first two sides of the *mailbox* that is not one
+                # of the first two claimants of the nameplate: unspecified
+                self.note("O1_unspecified_refusal")
                 if S not in np.sides:
                     np.sides[S] = MSide(S, t)     # it tried: counts as a side of the nameplate
                 return
+            if err == "crowded":
+                self.mm("crowd", "side %r is one of the first two sides of nameplate %r (sides %r, refused %r) but its claim was answered crowded"
+                        % (S, name, list(np.sides), sorted(np.refused | mb.refused)))
         if err is not None or len(claimed) != 1 or len(fs) != 1:
             self.mm("claim-refused", "claim of %r by %r (sides %r) answered %r" % (name, S, sorted(np.sides), fs))
         if claimed[0].get("mailbox") != mb.id:
@@ -545,9 +554,11 @@ class ModelObserver(Observer):
                 self.mm("crowd", "side %r is a third party on mailbox %r (sides %r) but was answered %r" % (S, mid, sorted(mb.sides), fs))
             self.refuse_mb_only(mb, S, t, st)
             return
-        if mb.crowd and err == "crowded":
-            self.note("O1_first_two_refused")
-            return
+        if mb.crowd:
+            self.note("first_two_side_returns_after_refusal")
+            if err == "crowded":
+                self.mm("crowd", "side %r is one of the first two sides of mailbox %r (sides %r, refused %r) but its open was answered crowded"
+                        % (S, mid, list(mb.sides), sorted(mb.refused)))
         if err is not None:
             self.mm("mb-life", "open of mailbox %r by %r (sides %r) answered %r" % (mid, S, sorted(mb.sides), fs))
         if len(fs) != len(msgs):
@@ -650,9 +661,11 @@ class ModelObserver(Observer):
                     self.mm("crowd", "side %r is a third party on mailbox %r (sides %r) but its close was answered %r" % (S, mid, sorted(mb.sides), fs))
                 self.refuse_mb_only(mb, S, t, st)
                 return
-            if mb.crowd and err == "crowded":
-                self.note("O1_first_two_refused")
-                return
+            if mb.crowd:
+                self.note("first_two_side_returns_after_refusal")
+                if err == "crowded":
+                    self.mm("crowd", "side %r is one of the first two sides of mailbox %r (sides %r, refused %r) but its close was answered crowded"
+                            % (S, mid, list(mb.sides), sorted(mb.refused)))
             if S not in mb.sides:
                 mb.sides[S] = MSide(S, t)
                 self.note("close_by_new_side")
@@ -712,7 +725,8 @@ class ModelObserver(Observer):
         if tk.after is None:
             return
         if self.last_tick_t is not None and not start:
-            pass
+            if abs((s - self.last_tick_t) - self.P) > 1e-6:
+                self.mm("timer", "sweep at %r, previous at %r: not one period (%r) apart" % (s, self.last_tick_t, self.P))
         self.last_tick_t = s
         after_mb = set((r[0], r[1]) for r in tk.after["mailboxes"])
         after_np = set((r[1], r[2]) for r in tk.after["nameplates"])
